@@ -13,6 +13,7 @@ import (
 	"google.golang.org/grpc"
 	"google.golang.org/grpc/codes"
 	"google.golang.org/grpc/metadata"
+	"google.golang.org/grpc/stats"
 	"google.golang.org/grpc/status"
 	"google.golang.org/protobuf/proto"
 	"google.golang.org/protobuf/reflect/protoreflect"
@@ -29,7 +30,9 @@ import (
 // maps are written  hexkey=hexval|hexval;hexkey=...  sorted by key (keys lower-cased on the observation side)
 
 type c14Env struct {
-	mux  *larking.Mux
+	mux      *larking.Mux
+	muxPlain *larking.Mux
+	muxStats *larking.Mux // the same service behind a stats handler and interceptors (protocol names ending in "+s")
 	seen metadata.MD
 	hdr  metadata.MD
 	trl  metadata.MD
@@ -137,12 +140,31 @@ func c14Setup() *c14Env {
 	if err != nil {
 		panic(err)
 	}
+	e.muxPlain = e.mux
+	e.muxStats, err = dynMux([]protoreflect.FileDescriptor{fd}, impl, larking.StatsOption(c14Stats{}),
+		larking.UnaryServerInterceptorOption(func(ctx context.Context, req interface{}, info *grpc.UnaryServerInfo, h grpc.UnaryHandler) (interface{}, error) {
+			return h(ctx, req)
+		}))
+	if err != nil {
+		panic(err)
+	}
 	c14env = e
 	return e
 }
 
+type c14Stats struct{}
+type c14TagKey struct{}
+
+func (c14Stats) TagRPC(ctx context.Context, _ *stats.RPCTagInfo) context.Context {
+	return context.WithValue(ctx, c14TagKey{}, true)
+}
+func (c14Stats) HandleRPC(context.Context, stats.RPCStats)                         {}
+func (c14Stats) TagConn(ctx context.Context, _ *stats.ConnTagInfo) context.Context { return ctx }
+func (c14Stats) HandleConn(context.Context, stats.ConnStats)                       {}
+
 func c14Request(proto_ string, hdrs map[string][]string) *http.Request {
 	var r *http.Request
+	proto_ = strings.TrimSuffix(proto_, "+s")
 	switch proto_ {
 	case "grpc":
 		r = httptest.NewRequest("POST", "/verif.c14.Msvc/Unary", bytes.NewReader(grpcFrame(nil)))
@@ -187,7 +209,12 @@ func webTrailers(body []byte) map[string][]string {
 
 func c14Call(proto_ string, hdrs map[string][]string) (hdr, trl map[string][]string, panicked bool) {
 	e := c14env
+	e.mux = e.muxPlain
+	if strings.HasSuffix(proto_, "+s") {
+		e.mux = e.muxStats
+	}
 	w, p := serveRec(e.mux, c14Request(proto_, hdrs))
+	proto_ = strings.TrimSuffix(proto_, "+s")
 	if p != "" {
 		return nil, nil, true
 	}
@@ -322,6 +349,8 @@ func c14Gen(o *out, r *rng, tier string) {
 		for _, n := range names {
 			emitI(p, map[string][]string{n: {"one"}}, "single")
 			emitI(p, map[string][]string{n: {"one", "two", "three"}}, "multi")
+			// the same behind a stats handler (whose TagRPC derives a context) and an interceptor
+			emitI(p+"+s", map[string][]string{n: {"one", "two"}, "X-Keep": {"keep"}}, "with-stats")
 		}
 		for _, n := range reservedIn {
 			v := "5S"
